@@ -359,7 +359,14 @@ def run(prog, rep):
         f = dmod.functions.get(fn)
         rep.saw_function(f)
         txt = unparse(f.node)
-        rep.check("self.get(dtype + '%s', %s)" % (suf, default) in txt, "TAB-1", "dtypes.%s dispatches on dtype + '%s'" % (fn, suf), "ok",
+        # module level aliases (str_set = str_get): any name of the same function is the same default
+        same = set([default])
+        for _ in range(3):
+            for st0 in dmod.tree.body:
+                if isinstance(st0, ast.Assign) and len(st0.targets) == 1 and isinstance(st0.targets[0], ast.Name) and isinstance(st0.value, ast.Name):
+                    if st0.targets[0].id in same or st0.value.id in same:
+                        same |= set([st0.targets[0].id, st0.value.id])
+        rep.check(any("self.get(dtype + '%s', %s)" % (suf, d0) in txt for d0 in same), "TAB-1", "dtypes.%s dispatches on dtype + '%s'" % (fn, suf), "ok",
                   "dtypes.%s no longer dispatches through the module table with %s as default" % (fn, default), f.where)
         routed = False
         for eff in effect_calls(prog, f, lambda c, suf=suf: canonical_name(prog, f, c.func) == "dtypes.tuple%s" % suf):
